@@ -315,6 +315,39 @@ Proof.
   unfold ack_to_transmit in F1. rewrite F1, F2. reflexivity.
 Qed.
 
+(* the fingerprint's window is the one rx_window computes *)
+Lemma fp_rx_window_spec (s : vsock) : fp_rx_window (fp_of_vsock cci s) = rx_window s.
+Proof.
+  unfold fp_rx_window, rx_window, remaining_rx_window.
+  cbn [fp_of_vsock f_rx_reader_dropped f_rx_last_remaining f_rx_len_bytes f_mss]. reflexivity.
+Qed.
+
+Theorem c07_window_update_ok_step : forall cfg (s : vsock) o,
+  mss_pos s -> c07_window_update_ok cfg (fstep_of cci s o) = true.
+Proof.
+  intros cfg s o M. unfold c07_window_update_ok.
+  destruct (c07_poll_done (fstep_of cci s o)) eqn:D; [|reflexivity].
+  destruct o; try (rewrite not_poll_done in D; [discriminate | intros sc; discriminate]).
+  destruct (poll cci (VSockRec.set_sends s script)) as [s' r] eqn:E.
+  destruct (poll_done_inv s script s' r E D) as (R & T). subst r.
+  rewrite (fstep_of_poll cci s script s' _ E).
+  cbn [fs_post andb]. rewrite fp_rx_window_spec.
+  cbn [fp_of_vsock f_state f_last_sent_window].
+  assert (M' : 1 <= mss (v_ss (VSockRec.set_sends s script))) by exact M.
+  destruct (c07_no_pending_immediate_ack_lemma _ s' M' E T) as (_ & W & _).
+  unfold should_send_window_update in W.
+  destruct (is_remote_fin_or_later (v_state s')); [reflexivity|]. cbn [negb].
+  destruct (rx_window s' =? 0), (v_last_sent_window s' =? 0); cbn in W |- *; congruence.
+Qed.
+
+Theorem c07_window_update_ok_trace : forall cfg ops (s : vsock),
+  mss_pos s -> forallb (c07_window_update_ok cfg) (ftrace cci s ops) = true.
+Proof.
+  intros cfg. apply (ftrace_forallb cci mss_pos).
+  - intros s o M. apply c07_window_update_ok_step; exact M.
+  - apply mss_pos_vstep.
+Qed.
+
 (* along every trace from a state with mss >= 1 (every state built by vsock_new) *)
 Theorem c07_immediate_ok_trace : forall cfg ops (s : vsock),
   mss_pos s -> forallb (c07_immediate_ok cfg) (ftrace cci s ops) = true.
